@@ -545,7 +545,7 @@ fn check_characteristic_common(
         ];
         let axis_pts_names = ["X", "Y", "Z", "4", "5"];
         for (idx, axis_descr) in characteristic.axis_descr().iter().enumerate() {
-            if axis_descr.attribute == AxisDescrAttribute::StdAxis {
+            if idx < axis_refs.len() && axis_descr.attribute == AxisDescrAttribute::StdAxis {
                 // an STD_AXIS must be described by the record layout - should this also apply to CURVE_AXIS?
                 if let Some(axis_pts_dim) = axis_refs[idx] {
                     // the compu method is optional, it could be set to NO_COMPU_METHOD
